@@ -13,18 +13,18 @@ Import ListNotations.
 
 Theorem C01_cert_sound : forall (nl1 nl2 : netlist) (sc : schedule) (ws : list nat) (sigma : nat -> list bv),
   (forall t, ins_wf ws (sigma t)) ->
-  forall layers, check_cert nl1 nl2 sc ws layers = true ->
+  forall layers, check_cert MRefine nl1 nl2 sc ws layers = true ->
   forall t, Forall2 bv_compat (out_at nl1 sc sigma t) (out_at nl2 sc sigma t) /\
             (clean_upto nl1 sc sigma t = true -> out_at nl2 sc sigma t = out_at nl1 sc sigma t).
-Proof. exact cert_sound. Qed.
+Proof. intros nl1 nl2 sc ws sigma Hs layers H. exact (cert_sound MRefine nl1 nl2 sc ws sigma Hs layers eq_refl H). Qed.
 Print Assumptions C01_cert_sound.
 
 (* the product run never leaves the certified sets *)
 Theorem C01_cert_invariant : forall (nl1 nl2 : netlist) (sc : schedule) (ws : list nat) (sigma : nat -> list bv),
   (forall t, ins_wf ws (sigma t)) ->
-  forall layers, check_cert nl1 nl2 sc ws layers = true ->
+  forall mode layers, check_cert mode nl1 nl2 sc ws layers = true ->
   forall t, In (pstate_at nl1 nl2 sc sigma t) (layer sc layers t).
-Proof. exact cert_invariant. Qed.
+Proof. intros nl1 nl2 sc ws sigma Hs mode layers H. exact (cert_invariant mode nl1 nl2 sc ws sigma Hs layers H). Qed.
 Print Assumptions C01_cert_invariant.
 
 (* the input enumeration the checker relies on is complete for 4-state vectors of the given widths *)
@@ -46,7 +46,7 @@ Definition ex_sched : schedule := mk_sched [[EvReset true]; [EvEdge; EvReset fal
 Definition ex_layers : list (list pstate) :=
   [ [mk_pstate [] [] true]; [mk_pstate [] [] true; mk_pstate [] [] false]; [mk_pstate [] [] true; mk_pstate [] [] false] ].
 
-Example ex_cert_accepted : check_cert exA exB ex_sched [1] ex_layers = true.
+Example ex_cert_accepted : check_cert MRefine exA exB ex_sched [1] ex_layers = true.
 Proof. vm_compute. reflexivity. Qed.
 
 (* and a wrong "optimisation" (B' drops one NOT) is rejected *)
@@ -54,5 +54,5 @@ Definition exBad : netlist :=
   [ mk_node (NPinIn 1 0) [];
     mk_node (NComb (KLogic L_NOT 1)) [Some (0, 0)];
     mk_node (NPinOut 1) [Some (1, 0)] ].
-Example ex_cert_rejected : check_cert exA exBad ex_sched [1] ex_layers = false.
+Example ex_cert_rejected : check_cert MRefine exA exBad ex_sched [1] ex_layers = false.
 Proof. vm_compute. reflexivity. Qed.
